@@ -44,7 +44,9 @@ Record ecase := EC {
   ec_pairs : list (id * bool * rt);         (* multi-pair tree-to-tree copies: per (from, to) pair the source
                                                node, whether the whole subtree is expected, and the tree found at
                                                the destination path afterwards                              *)
-  ec_expect_ok : bool                       (* the call is valid by construction: it must not raise    *)
+  ec_expect_ok : bool;                      (* the call is valid by construction: it must not raise    *)
+  ec_sepw : bool                            (* the input is get_tree_diff's other_tree and its separator differs
+                                               from the first tree's: helper.py:336 overwrites it (sk_diff) *)
 }.
 
 (* ------------------------------------------------------------------------------------------ *)
@@ -110,7 +112,7 @@ Definition prop_C07 (c : ecase) : bool := all_clauses (observed c).
 (* ------------------------------------------------------------------------------------------ *)
 (* the model on the same input *)
 
-Definition dflt_entry : entry := E [] [] [] [] None.
+Definition dflt_entry : entry := E [] [] [] [] None 0.
 Definition entry_of (s : sig) (x : id) : entry := nth x (sg_entries s) dflt_entry.
 
 Definition max_list (l : list nat) : nat := fold_left Nat.max l 0.
@@ -149,7 +151,11 @@ Fixpoint walk (fuel : nat) (s : forest) (x : id) : list id :=
 (* what the harness would record on the model state for the input nodes *)
 Definition observe (n : nat) (h : eheap) : sig :=
   SG (walk n (fr h) 0)
-     (map (fun x => E (match par (fr h) x with Some p => [p] | None => [] end) (map Some (kids (fr h) x)) (name (fr h) x) (att h x) None) (seq 0 n)).
+     (map (fun x => E (match par (fr h) x with Some p => [p] | None => [] end) (map Some (kids (fr h) x)) (name (fr h) x) (att h x) None 0) (seq 0 n)).
+
+(* the forest model does not carry path names *)
+Definition strip_path (s : sig) : sig :=
+  SG (sg_walk s) (map (fun e => E (e_pars e) (e_kids e) (e_name e) (e_attrs e) (e_priv e) 0) (sg_entries s)).
 
 Fixpoint heap_rt (fuel : nat) (h : eheap) (x : id) : rt :=
   RT x (name (fr h) x) (att h x) (kl h x)
@@ -224,8 +230,8 @@ Fixpoint compact (t : rt) : rt :=
 Definition predicted (c : ecase) : clauses :=
   let n := ec_n c in
   let v := vsz_of c in
-  let input_has_vals := existsb (fun e => existsb (fun a => negb (Nat.eqb (attr_addr a) 0)) (e_attrs e))
-                                (sg_entries (ec_before c)) in
+  (* mutable value objects anywhere inside the attribute values (inside tuples as well) *)
+  let input_has_vals := match ec_in_vals c with [] => false | _ => true end in
   let all := CL true true true true true true true in
   match ec_fn c with
   | FShallowCopy _ | FDagShallow _ => CL true false false (negb input_has_vals) true false false
@@ -238,7 +244,7 @@ Definition predicted (c : ecase) : clauses :=
                             || same_tree (compact (sub_rt n (ec_before c) 0)) (sub_rt n (ec_before c) 0)
                         | None => true end in
       CL true true true (negb shared) slots_kept (negb shared) (negb shared)
-  | _ => all
+  | _ => if ec_sepw c then CL false true true true true false true else all
   end.
 
 Definition implc (p o : clauses) : bool :=
@@ -256,7 +262,7 @@ Definition agree_run (c : ecase) : bool :=
   | None => true
   | Some (h', r) =>
       (* the input nodes after the call *)
-      sig_eqb (observe n h') (ec_after c)
+      sig_eqb (observe n h') (strip_path (ec_after c))
       && match r, ec_result c with
          | Some r, Some (t, ret, up) =>
              let '(mt, mret, mup) := model_view h' r in
